@@ -851,9 +851,11 @@ class Glyph(BaseObject):
     def _set_anchors(self, value):
         self.clearAnchors()
         self.holdNotifications(note="Requested by Glyph._set_anchors.")
-        for anchor in value:
-            self.appendAnchor(anchor)
-        self.releaseHeldNotifications()
+        try:
+            for anchor in value:
+                self.appendAnchor(anchor)
+        finally:
+            self.releaseHeldNotifications()
 
     anchors = property(_get_anchors, _set_anchors, doc="An ordered list of :class:`Anchor` objects stored in the glyph.")
 
@@ -963,9 +965,11 @@ class Glyph(BaseObject):
     def _set_guidelines(self, value):
         self.clearGuidelines()
         self.holdNotifications(note="Requested by Glyph._set_guidelines.")
-        for guideline in value:
-            self.appendGuideline(guideline)
-        self.releaseHeldNotifications()
+        try:
+            for guideline in value:
+                self.appendGuideline(guideline)
+        finally:
+            self.releaseHeldNotifications()
 
     guidelines = property(_get_guidelines, _set_guidelines, doc="An ordered list of :class:`Guideline` objects stored in the glyph. Setting this will post a *Glyph.Changed* notification along with any notifications posted by the :py:meth:`Glyph.appendGuideline` and :py:meth:`Glyph.clearGuidelines` methods.")
 
